@@ -247,7 +247,7 @@ class CapsGen(viewgen.Gen):
                     "fill_group_header": "::sbepp::fill_group_header(%s, ::c11::sz(%s))" % (R, R),
                     "group_resize": "%s.resize(::c11::sz(%s))" % (R, R),
                     "group_clear": "%s.clear()" % R,
-                    "size": "(%s.size(), %s.sbe_size(), %s.empty(), %s.max_size())" % (R, R, R, R),
+                    "size": "(%s.size(), %s.sbe_size(), %s.max_size())" % (R, R, R),   # not .empty(): a group may be NAMED empty (C07 matter)
                     "iterate": "::c11::walk(%s)" % R,
                     "cursor_range": "(%s.cursor_range($C), %s.cursor_begin($C), %s.cursor_end($C), %s.cursor_subrange($C, ::c11::sz(%s)))" % (R, R, R, R, R),
                     "cursor_iterate": "*%s.cursor_range($C).begin()" % R,
